@@ -92,3 +92,16 @@ End ctor.
 (** IDs of the objects whose constructor completed and that still exist. *)
 Definition kid (o : cobj) : option Z := if cdone o && calive o then hid (ch o) else None.
 Definition klive (w : cworld) : list Z := omap kid (cobjs w).
+
+(** The states (slot set?, registered?, flag set?) in which a constructor call can be abandoned: one per [CMayRaise] step.  The
+    harness observes the half-built object of every failing call (through the traceback) and asks that its state be one of these,
+    and that the destructor released its ID exactly when the model's does. *)
+Fixpoint fail_states (l : list cstep) (has reg own : bool) : list (bool * bool * bool) :=
+  match l with
+  | [] => []
+  | CStoreRaw :: r => fail_states r true false own
+  | CMayRaise :: r => (has, reg, own) :: fail_states r has reg own
+  | CRegister :: r => fail_states r true true own
+  | CSetOwned :: r => fail_states r has reg true
+  end.
+Definition half_abs (h : half) : bool * bool * bool := (bool_decide (is_Some (hid h)), hreg h, hown h).
